@@ -110,19 +110,28 @@ def work_public(chunk):
     res = common.Result()
     for case in chunk:
         auth, priv, kt, klen, disc = case["auth"], case["priv"], case["kt"], case["klen"], case["discover"]
+        pkt = case.get("pkt", kt)
         ks = refcrypto.KEYLEN[auth]
         eid = b"\x80\x00\x1f\x88\x04engine"
         raw_a = bytes((i * 3 + 1) & 0xFF for i in range(klen))
         raw_p = bytes((i * 5 + 2) & 0xFF for i in range(klen))
         pad = lambda k: (k + b"\x00" * ks)[:ks]  # noqa: E731
-        ktype = {1: KeyType.Master, 2: KeyType.Localized}[kt]
-        akey = {1: Md5Key, 2: Sha1Key}[auth](raw_a, key_type=ktype)
-        pkey = {1: DesKey, 2: Aes128Key}[priv](raw_p, key_type=ktype) if priv else None
+        ktypes = {0: KeyType.Password, 1: KeyType.Master, 2: KeyType.Localized}
+        akey = {1: Md5Key, 2: Sha1Key}[auth](raw_a, key_type=ktypes[kt])
+        pkey = {1: DesKey, 2: Aes128Key}[priv](raw_p, key_type=ktypes[pkt]) if priv else None
         user = User("padder", auth_key=akey, priv_key=pkey)
-        # reference: padded material, then A.2 localisation for master keys
-        a_mat, p_mat = pad(raw_a), pad(raw_p)
-        a_kul = refcrypto.localize(auth, a_mat, eid) if kt == 1 else a_mat
-        p_kul = (refcrypto.localize(auth, p_mat, eid) if kt == 1 else p_mat) if priv else None
+
+        def kul(raw, t):
+            # reference: passwords go through A.2.1/A.2.2 then localisation; master keys are padded to the auth
+            # key length then localized; localized keys are padded and used as they are
+            if t == 0:
+                return refcrypto.localize(auth, refcrypto.password_to_key_fast(auth, raw), eid)
+            if t == 1:
+                return refcrypto.localize(auth, pad(raw), eid)
+            return pad(raw)
+
+        a_kul = kul(raw_a, kt)
+        p_kul = kul(raw_p, pkt) if priv else None
         captured = []
 
         def responder(data, idx):
@@ -161,7 +170,7 @@ def work_public(chunk):
         res.count("datagrams")
         if len(r.auth_params) != 12 or refcrypto.mac_of_message(auth, a_kul, data, r.auth_off) != r.auth_params:
             res.violation(
-                "public-user/mac/%s/kt%d/len%d" % (drivers.AUTH_NAMES[auth], kt, klen),
+                "public-user/mac/%s/kt%d-%d/len%d" % (drivers.AUTH_NAMES[auth], kt, pkt, klen),
                 "auth key of %d octets (type %d) padded to %d: MAC does not verify under the A.2 reference key" % (klen, kt, ks),
                 case,
             )
@@ -171,7 +180,7 @@ def work_public(chunk):
                 rb.parse_scoped_into(rb.Request(), plain, True, allow_padding=True)
             except (rb.StrictError, ValueError, TypeError) as e:
                 res.violation(
-                    "public-user/priv/%s-%s/kt%d/len%d" % (drivers.AUTH_NAMES[auth], drivers.PRIV_NAMES[priv], kt, klen),
+                    "public-user/priv/%s-%s/kt%d-%d/len%d" % (drivers.AUTH_NAMES[auth], drivers.PRIV_NAMES[priv], kt, pkt, klen),
                     "priv key of %d octets (type %d): payload does not decrypt under the reference key (%s)" % (klen, kt, e),
                     case,
                 )
@@ -354,6 +363,15 @@ def run(tier):
                 if kt == 2 and disc:
                     continue  # a localized key is tied to a known engine id
                 pub.append({"auth": auth, "priv": priv, "kt": kt, "klen": klen, "discover": disc})
+    # mixed key types for the auth and the priv key through the public User classes
+    for auth, priv in itertools.product((1, 2), (1, 2)):
+        for kt, pkt in itertools.product((0, 1, 2), (0, 1, 2)):
+            if kt == pkt:
+                continue
+            for disc in (False, True):
+                if 2 in (kt, pkt) and disc:
+                    continue
+                pub.append({"auth": auth, "priv": priv, "kt": kt, "pkt": pkt, "klen": 16 if auth == 1 else 20, "discover": disc})
     common.run_cases(rec, work_public, pub, chunk=6)
     mal = [{"kind": k} for k in ("localized_master_len", "alg_codes", "empty_password", "socket_key_len", "socket_alg_codes")]
     common.run_cases(rec, work_malformed, mal, chunk=1)
